@@ -35,6 +35,10 @@ func loadBaseline(verifDir, rule string) (baseline, error) {
 
 type undecidedItem struct{ Pos, Why string }
 
+// baselineReadOnly: set while a rule applies a baseline to a subset of the functions it was recorded for (scoped sharing of a
+// rule under another property); such a run never rewrites the file.
+var baselineReadOnly bool
+
 // baselineCtx gives ApplyBaseline access to the loaded program (function inventory, callers).
 var baselineCtx *Ctx
 
@@ -107,7 +111,7 @@ func (r *Result) ApplyBaselineFile(verifDir, file, rule, what string, perFn map[
 		r.Errorf("baseline %s: %v", rule, err)
 		return
 	}
-	if writeBaselines {
+	if writeBaselines && !baselineReadOnly {
 		nb := baseline{}
 		// constructs recorded as known findings stay out of the baseline: they must keep being reported
 		known, _, _ := loadKnown(filepath.Join(verifDir, "known_findings.txt"))
